@@ -104,6 +104,38 @@ Definition req_eqb (a b : bbox * (Z * Z)) : bool := bbox_eqb (fst a) (fst b) && 
 Definition same_request_set (a b : list (bbox * (Z * Z))) : bool :=
   forallb (fun x => existsb (req_eqb x) b) a && forallb (fun x => existsb (req_eqb x) a) b.
 
+(* ---- tile services: TileLayer._internal_tile_coord (no profiles) and the bbox of WMTS GetFeatureInfo *)
+Inductive req_origin := OriginNone | OriginNW | OriginSW.
+Definition internal_tile_coord (g : grid) (o : req_origin) (x y l : Z) : option (Z * Z * Z) :=
+  match limit_tile g x y l with
+  | None => None                                     (* TileOutOfRange *)
+  | Some (x', y', l') =>
+    match o with
+    | OriginNW => if ul g then Some (x', y', l') else Some (flip_tile_coord g x' y' l')
+    | OriginSW => if ul g then Some (flip_tile_coord g x' y' l') else Some (x', y', l')
+    | OriginNone => Some (x', y', l')
+    end
+  end.
+(* the four WMTS request classes and the origin attribute each one carries (mapproxy/request/wmts.py):
+   WMTS100TileRequest/WMTS100FeatureInfoRequest set origin = 'nw' in make_request, WMTS100RestTileRequest has
+   the class attribute, WMTS100RestFeatureInfoRequest inherits None from TileRequest *)
+Inductive wmts_request := KvpTile | KvpFeatureInfo | RestTile | RestFeatureInfo.
+Definition wmts_origin (r : wmts_request) : req_origin :=
+  match r with RestFeatureInfo => OriginNone | _ => OriginNW end.
+(* WMTSServer.featureinfo: bbox = tile_layer.tile_bbox(request); render(): the tile that is served *)
+Definition wmts_bbox (g : grid) (r : wmts_request) (col row l : Z) : option bbox :=
+  match internal_tile_coord g (wmts_origin r) col row l with
+  | Some (x, y, l') => Some (tile_bbox g x y l')
+  | None => None
+  end.
+(* what the address means (OGC WMTS): row 0 is the northernmost row of a matrix whose top left corner is the top
+   left corner of the grid bbox *)
+Definition nw_grid (g : grid) : grid :=
+  mkGrid (gx0 g) (gy0 g) (gx1 g) (gy1 g) (tw g) (th g) (ress g) true (sf_n g) (sf_d g) (shr_n g) (shr_d g).
+Definition wmts_rectangle (g : grid) (col row l : Z) : bbox := tile_bbox (nw_grid g) col row l.
+Definition obbox_eqb (a b : option bbox) : bool :=
+  match a, b with Some x, Some y => bbox_eqb x y | None, None => true | _, _ => false end.
+
 (* ---- CacheMapLayer._image for a request in the grid SRS: level, mosaic bbox, mosaic grid, tiles *)
 Inductive map_plan :=
 | Blank                                   (* NoTiles -> BlankImage *)
